@@ -107,6 +107,31 @@ def on_break(r, breaks, eps=1e-11):
   return near_break(r, breaks, eps)
 
 
+def branch_sides(orc, r):
+  """Selection points to try for a grid value at r: [r] normally; on a breakpoint also just above / below."""
+  r = F(r)
+  if r != 0 and on_break(r, orc.breaks):
+    d = max(abs(r), mpf(1)) * mpf("1e-10")
+    return [r, r + d, r - d]
+  return [r]
+
+
+def matching_sides(orc, r, tok, factor=1, rel=1e-9, abs_=0.0):
+  """Which selection points reproduce the printed value (used to tie the force to the energy's branch)."""
+  r = F(r)
+  out = []
+  for at in branch_sides(orc, r):
+    try:
+      ref = orc.m.value(orc.node, r, at) * factor
+      sc = R.scale(lambda x: orc.m.value(orc.node, x, at), r) * abs(factor)
+      mag = orc.m.mag(orc.node, r, at) * abs(factor)
+      if R.close(float(tok), ref, q=R.token_quantum(tok), sc=sc, rel=rel, abs_=abs_, mag=mag)[0]:
+        out.append(at)
+    except (RefDomainError, ZeroDivisionError, ValueError, OverflowError):
+      pass
+  return out
+
+
 def check_value(ctx, kind, tok, orc, r, factor=1, rel=1e-9, abs_=0.0, where=None, count=True):
   """tok == orc(r)*factor.  When r sits on a range boundary / table end (the writer's
   floating-point r and the exact grid point may fall on different sides) the value of
